@@ -295,12 +295,14 @@ def wrap_card(line, width=78):
     lines = []
     cur = ''
     for w in words:
-        if cur and len(cur) + 1 + len(w) > width:
+        # never emit a line of blanks only: MCNP reads it as the blank-line delimiter of the block
+        if cur.strip() and len(cur) + 1 + len(w) > width:
             lines.append(cur)
             cur = '      ' + w
         else:
             cur = w if not cur else cur + ' ' + w
-    lines.append(cur)
+    if cur.strip():
+        lines.append(cur)
     return '\n'.join(lines)
 
 
